@@ -179,7 +179,8 @@ def run(ctx, ck) -> None:
     if isinstance(hinit, ast.FunctionDef):
         e7 = path_env(Path([('stmt', st) for st in hinit.body if isinstance(st, ast.Assign) and isinstance(st.targets[0], ast.Name)]))
         nside = ('var', hinit.args.args[1].arg)
-        ok7 = e7.get('shape') == ('tuple', ('binop', '*', ('const', '12'), ('binop', '**', nside, ('const', '2'))))
+        sup7 = [term(n, e7) for n in ast.walk(hinit) if isinstance(n, ast.Call) and 'super().__init__' in ast.unparse(n.func)]
+        ok7 = any(c[2] and c[2][0] == ('tuple', ('binop', '*', ('const', '12'), ('binop', '**', nside, ('const', '2')))) for c in sup7)
     ck.expect('P6', ok7, hinit or hp.node, 'a HEALPix map has 12 * nside**2 pixels', 'the HEALPix map shape is no longer (12 * nside**2,)', instance='healpix pixel count')
 
     # ------------------------------------------------------------------ P4
